@@ -62,3 +62,6 @@ add("C19", OTHER, "symbolic execution of all 51 exported operations with an effe
 add("C18", OTHER, "effects/event extraction by symbolic execution of all exported operations + happens-before schedule query in z3 (Once.Do modelled by its contract); cold-start `go test -race` replay in the thorough tier / on alarm",
     "Package-level state is written only inside a table's own Once.Do initialiser; tables are read only after Do returned; for 2 (quick) / 3 (thorough) goroutines and every multiset of table-using operations no schedule leaves a table write unordered with another goroutine's access.",
     "Sequentially consistent events, sync.Once contract trusted, one call per goroutine, object granularity.", "DESIGN.md 5/C18")
+add("C03", OTHER, "per-function leakage-mode symbolic execution (bit-vectors, all data secret) over the static call graph of the constant-time API with assume/guarantee summaries; each non-constant leak site decided by a self-composition query in z3; assembly shape check",
+    "For every function reachable from the constant-time API and all pairs of secrets with equal public shape: every branch condition, index, slice bound, shift count and division operand is secret-independent (unsat self-composition), except the recorded known finding in checkInitialized; no constant-time entry reaches a VarTime routine; fe_amd64.s is straight-line with constant addressing. Decoder validity decisions are exempt.",
+    "Leakage model = the property's; below go/ssa (compiler lowering, memequal, hardware) outside; callee contracts from C01/C07-C10.", "DESIGN.md 5/C03")
